@@ -607,7 +607,9 @@ func runC09R34(c *Ctx, r *Rep) {
 			}
 		}
 	}
-	w2.walkFunc(cfd.Body)
+	// the close sequence as one body, whether it is written in Close or split over helpers of the package
+	flatClose := &ast.FuncDecl{Name: cfd.Name, Recv: cfd.Recv, Type: cfd.Type, Body: c.Flatten(lc.pkg, cfd)}
+	w2.walkFunc(flatClose.Body)
 	key = "stdlib|" + cid + "|quiescence atomic with closing"
 	var setFlag, wgWait, condWait, readCounter *evt
 	for i := range evs {
@@ -637,7 +639,7 @@ func runC09R34(c *Ctx, r *Rep) {
 		} else {
 			r.bad(key, setFlag.pos, "Close waits for running executions first and only then sets the flag admission tests (%v): an execution admitted while Close waits, or between the wait and the flag, runs concurrently with / after the close callbacks", varNames(lc.flags))
 		}
-	case condWait != nil && readCounter != nil && !waitInCounterLoop(info, lc, cfd):
+	case condWait != nil && readCounter != nil && !waitInCounterLoop(info, lc, flatClose):
 		r.bad(key, condWait.pos, "the condition-variable wait is not inside a `for` loop that re-tests the busy counter: after a wake-up Close does not re-check that no execution was admitted in between (a run admitted between the Broadcast and Close re-acquiring the mutex is not waited for)")
 	case condWait != nil && readCounter != nil:
 		if setFlag.sec != 0 && setFlag.sec == condWait.sec && setFlag.sec == readCounter.sec && setFlag.ord > condWait.ord {
@@ -674,14 +676,37 @@ func waitInCounterLoop(info *types.Info, lc *lifecycle, fd *ast.FuncDecl) bool {
 			if _, isLit := stack[i].(*ast.FuncLit); isLit {
 				break
 			}
-			if f, isFor := stack[i].(*ast.ForStmt); isFor && f.Cond != nil {
+			if f, isFor := stack[i].(*ast.ForStmt); isFor {
+				// the loop re-tests the counter: in its condition, or in an `if … { break }` of its body
 				reads := false
-				ast.Inspect(f.Cond, func(m ast.Node) bool {
-					if e, isE := m.(ast.Expr); isE && fieldOf(info, e, lc.ctxType) == lc.counter {
-						reads = true
+				look := func(e ast.Node) {
+					if e == nil {
+						return
 					}
-					return true
-				})
+					ast.Inspect(e, func(m ast.Node) bool {
+						if x, isE := m.(ast.Expr); isE && fieldOf(info, x, lc.ctxType) == lc.counter {
+							reads = true
+						}
+						return true
+					})
+				}
+				if f.Cond != nil {
+					look(f.Cond)
+				}
+				for _, st := range f.Body.List {
+					if is, ok := st.(*ast.IfStmt); ok {
+						leaves := false
+						ast.Inspect(is.Body, func(m ast.Node) bool {
+							if b, ok := m.(*ast.BranchStmt); ok && b.Tok == token.BREAK {
+								leaves = true
+							}
+							return true
+						})
+						if leaves {
+							look(is.Cond)
+						}
+					}
+				}
 				if reads {
 					inLoop = true
 				}
@@ -715,13 +740,20 @@ func runC09R5(c *Ctx, r *Rep) {
 		r.undecided("py|ModuleStore.OnContextClosed", token.NoPos, "anchor method not found")
 		return
 	}
-	// the Once function
+	// the Once function: a function literal, or a method of the context handed over as a method value
 	var onceLit *ast.FuncLit
 	ast.Inspect(cfd.Body, func(n ast.Node) bool {
 		if call, ok := n.(*ast.CallExpr); ok {
 			if _, typ, m, ok := syncMethod(info, call); ok && typ == "Once" && m == "Do" && len(call.Args) == 1 {
-				if fl, ok := call.Args[0].(*ast.FuncLit); ok {
-					onceLit = fl
+				switch a := unparen(call.Args[0]).(type) {
+				case *ast.FuncLit:
+					onceLit = a
+				case *ast.SelectorExpr:
+					if f, ok := info.Uses[a.Sel].(*types.Func); ok && f.Pkg() == lc.pkg.Types {
+						if d := c.Decl(f); d != nil && d.Body != nil {
+							onceLit = &ast.FuncLit{Type: d.Type, Body: d.Body}
+						}
+					}
 				}
 			}
 		}
@@ -729,10 +761,41 @@ func runC09R5(c *Ctx, r *Rep) {
 	})
 	key := "stdlib|" + cid + "|"
 	if onceLit == nil {
-		r.bad(key+"once", cfd.Pos(), "Close does not run its body under sync.Once.Do(func literal): repeated or concurrent Close calls are not idempotent")
+		r.bad(key+"once", cfd.Pos(), "Close does not run its body under sync.Once.Do: repeated or concurrent Close calls are not idempotent")
 		return
 	}
 	r.ok(key+"once", onceLit.Pos(), "close sequence runs inside sync.Once.Do")
+	// statements that only call a helper of the package stand for the helper's statements
+	var region []*ast.BlockStmt
+	var flatten func(list []ast.Stmt, depth int) []ast.Stmt
+	flatten = func(list []ast.Stmt, depth int) []ast.Stmt {
+		var out []ast.Stmt
+		for _, st := range list {
+			if es, ok := st.(*ast.ExprStmt); ok && depth < 4 {
+				if call, ok := es.X.(*ast.CallExpr); ok {
+					if f := Callee(info, call); f != nil && f.Pkg() == lc.pkg.Types && f != lc.closeFn {
+						if d := c.Decl(f); d != nil && d.Body != nil {
+							region = append(region, d.Body)
+							out = append(out, flatten(d.Body.List, depth+1)...)
+							continue
+						}
+					}
+				}
+			}
+			out = append(out, st)
+		}
+		return out
+	}
+	region = append(region, onceLit.Body)
+	onceLit = &ast.FuncLit{Type: onceLit.Type, Body: &ast.BlockStmt{Lbrace: onceLit.Body.Lbrace, List: flatten(onceLit.Body.List, 0), Rbrace: onceLit.Body.Rbrace}}
+	inRegion := func(pos, end token.Pos) bool {
+		for _, b := range region {
+			if pos >= b.Pos() && end <= b.End() {
+				return true
+			}
+		}
+		return false
+	}
 	// top-level statement indices inside the literal
 	idx := map[string]int{"wait": -1, "callbacks": -1, "close": -1}
 	cnt := map[string]int{}
@@ -824,7 +887,7 @@ func runC09R5(c *Ctx, r *Rep) {
 					if !ok {
 						return true
 					}
-					inOnce := call.Pos() >= onceLit.Pos() && call.End() <= onceLit.End()
+					inOnce := inRegion(call.Pos(), call.End())
 					if Callee(p.TypesInfo, call) == onClosed && !inOnce {
 						r.bad(shortPkg(p.PkgPath)+"|"+declID(p, fd)+"|call OnContextClosed", call.Pos(), "module close callbacks are invoked outside the context's Once-guarded close sequence")
 					}
